@@ -193,6 +193,43 @@ def run(ctx):
     cy = res.clause('C19.f', 'R-ABSINT', 'the equalizer hands each recording to a worker at most once (shared with C13.e)', floor=1)
     from . import c13
     c13.dispatch_once_clause(ctx, res, cy, 'C19', 'C19.f')
+    # ---- C19.i the default lookup window is produced in the convention its consumer expects (naive UTC, localised by the S3 facade)
+    ci = res.clause('C19.i', 'R-AGREE', 'default lookup start: clock convention agrees with the S3 facade (naive UTC <-> localize)', floor=1)
+    dflt = st.lookup_const('DEFAULT_LOOKUP_PROPERTIES')
+    fac = repo.find_class('S3BasicFacade')
+    if dflt is None or fac is None or fac.lookup('iter_keys') is None:
+        raise AnalysisError('anchor-lost role=default lookup properties / S3 facade listing')
+    clock = [c for c in ast.walk(dflt) if isinstance(c, ast.Call) and isinstance(c.func, ast.Attribute) and c.func.attr in ('utcnow', 'now', 'today', 'utcfromtimestamp', 'fromtimestamp')]
+    if not clock:
+        raise AnalysisError('default lookup properties read no clock: shape not modelled')
+    ik_ = fac.lookup('iter_keys').node
+    consumer = 'naive' if any(isinstance(c, ast.Call) and isinstance(c.func, ast.Attribute) and c.func.attr == 'localize' for c in ast.walk(ik_)) else \
+        ('aware' if any(isinstance(c, ast.Call) and isinstance(c.func, ast.Attribute) and c.func.attr == 'astimezone' for c in ast.walk(ik_)) else 'unknown')
+    for c in clock:
+        if c.func.attr == 'utcnow':
+            producer = 'naive'
+        elif c.func.attr == 'now' and (c.args or c.keywords):
+            producer = 'aware'
+        else:
+            producer = 'naive-local'
+        ok = (consumer == 'unknown' and producer != 'naive-local') or producer == consumer
+        ci.instance('default start `%s` is %s, the facade expects %s bounds' % (norm(c), producer, consumer), st.name, ok)
+        ci.evaluations += 1
+        if not ok:
+            res.add(Finding('C19', 'C19.i', 'R-AGREE', st.module.relpath, st.name, c.lineno, norm(c),
+                            'the default lookup window starts at `%s` (%s datetime) but the S3 listing %s: a lookup-driven run with default '
+                            'properties %s' % (norm(c), producer,
+                                               'localises its bounds as naive UTC values' if consumer == 'naive' else 'treats bounds as %s' % consumer,
+                                               'raises on the S3 cassette' if producer == 'aware' else 'is shifted by the local UTC offset')))
+    # ---- C19.h lookup-driven selection: the per-category lookups are lazy and consumed interleaved, so a cassette lookup keeps no state
+    from . import common as _cm
+    ch = res.clause('C19.h', 'R-PROV', 'cassette lookups keep no state on the cassette (categories are consumed lazily, possibly interleaved)', floor=3)
+    for cn in ('InMemoryTapeCassette', 'FileBasedTapeCassette', 'S3TapeCassette'):
+        c_ = repo.find_class(cn)
+        if c_ is None:
+            raise AnalysisError('anchor-lost class=%s' % cn)
+        _cm.stateless_methods_clause(res, ch, 'C19', 'C19.h', c_, ['iter_recording_ids'],
+                                     'each category draws its recordings from its own lookup')
     # ---- C19.g the categories and the explicit ids are stored as given (order preserved)
     from . import common
     cg = res.clause('C19.g', 'R-PROV', 'categories and explicit ids are stored as the caller gave them', floor=2)
